@@ -1574,6 +1574,11 @@ class DynamicBase(BaseSpaceImpl):
             root = dynsub.rootspace
             root.parent.clear_itemspace_at(root.argvalues_if)
 
+    def on_delete(self):
+        # The dynamic spaces copied from this space go with it
+        self.clear_subs_rootitems()
+        super().on_delete()
+
 
 _user_space_impl_base = (
     DynamicBase,
